@@ -6,10 +6,10 @@
    [allowed rs peer incoming t] (FirewallTable.match, C16) and [addr_ok rs peer t] (the address checks, C17) are
    arbitrary functions: every theorem holds for every rule semantics.
 
-   The inequality the code implements (F4 repair, `now.After(c.Expires)`, Expires = instant of the last honoured
-   packet + the protocol's timeout): a tracked flow is honoured while  now <= Expires  and not while
-   now > Expires. Idle for exactly the timeout is the one instant where the verdict also depends on the timer
-   wheel (evict deletes at Expires - now <= 0): see C18_boundary_churn_refuted. *)
+   The inequality the code implements (F4 repair `now.After(c.Expires)` in inConns, F24 repair `Expires - now >= 0`
+   re-arms in evict; Expires = instant of the last honoured packet + the protocol's timeout): a tracked flow is
+   honoured while  now <= Expires  (idle for at most the timeout, the exact instant included) and not while
+   now > Expires. *)
 From Coq Require Import List ZArith NArith Bool.
 Import ListNotations.
 From NV Require Import gen.Consts_Conntrack model.Wheel model.Conntrack model.FwReload
@@ -30,40 +30,37 @@ Theorem C18_one_tuple_both_directions : forall w,
 Proof. exact orient_reverse. Qed.
 Print Assumptions C18_one_tuple_both_directions.
 
-(* ALL histories, every flow f: the verdicts satisfy the history-level specification [flow_ok]: a packet of f
-   passes iff a rule allows it or f is tracked (an earlier packet of f passed), not idle past its timeout, and its
-   original direction is (still) allowed; a refused flow is forgotten. (With reloads this is also C19.) *)
+(* ALL histories, every flow f: the verdicts are the ones the history-level specification [flow_ok] prescribes: a
+   packet of f passes iff a rule allows it or f is tracked (an earlier packet of f passed), not idle past its
+   timeout, and its original direction is (still) allowed; a refused flow is forgotten. (With reloads this is also
+   C19; `true`: the specification that mirrors the conntrack reset at the version wrap.) *)
 Theorem C18_history_spec : forall allowed addr_ok rs v0 tcp udp def t0 h f,
   (v0 < 65536)%N ->
-  flow_ok allowed addr_ok f (spec_boot rs v0 tcp udp def t0) h
+  flow_ok allowed addr_ok true f (spec_boot rs v0 tcp udp def t0) h
           (verdicts allowed addr_ok h (boot rs v0 tcp udp def t0)) = true.
 Proof.
   intros. apply model_meets_spec; [now apply vinv_boot|apply Rf_boot].
 Qed.
 Print Assumptions C18_history_spec.
 
-(* Off the exact instant Expires the specification is a function: the verdicts of flow f are [flow_fn], computed
-   from the packets of f alone (and the sleeps and reloads). *)
+(* The verdicts of flow f are the function [flow_fn] of the packets of f alone (and the sleeps and reloads). *)
 Theorem C18_verdicts_determined : forall allowed addr_ok rs v0 tcp udp def t0 h f,
   (v0 < 65536)%N ->
-  boundary_free allowed addr_ok f (spec_boot rs v0 tcp udp def t0) h = true ->
   restrict f h (verdicts allowed addr_ok h (boot rs v0 tcp udp def t0)) =
-  flow_fn allowed addr_ok f (spec_boot rs v0 tcp udp def t0) h.
+  flow_fn allowed addr_ok true f (spec_boot rs v0 tcp udp def t0) h.
 Proof.
-  intros. apply verdicts_determined; [now apply vinv_boot|apply Rf_boot|assumption].
+  intros. apply verdicts_determined; [now apply vinv_boot|apply Rf_boot].
 Qed.
 Print Assumptions C18_verdicts_determined.
 
-(* Flows are independent: removing (or adding) any traffic on other tuples leaves the verdicts of f unchanged -
-   unrelated churn neither keeps a flow alive nor expires it early. *)
+(* Flows are independent, on ALL histories: removing (or adding) any traffic on other tuples leaves the verdicts of f
+   unchanged - unrelated churn neither keeps a flow alive nor expires it early. *)
 Theorem C18_flows_independent : forall allowed addr_ok rs v0 tcp udp def t0 h f,
   (v0 < 65536)%N ->
-  boundary_free allowed addr_ok f (spec_boot rs v0 tcp udp def t0) h = true ->
   restrict f h (verdicts allowed addr_ok h (boot rs v0 tcp udp def t0)) =
   verdicts allowed addr_ok (proj f h) (boot rs v0 tcp udp def t0).
 Proof.
-  intros. apply flows_independent with (s := spec_boot rs v0 tcp udp def t0);
-    [now apply vinv_boot|apply Rf_boot|assumption].
+  intros. apply flows_independent with (s := spec_boot rs v0 tcp udp def t0); [now apply vinv_boot|apply Rf_boot].
 Qed.
 Print Assumptions C18_flows_independent.
 
@@ -79,7 +76,7 @@ Print Assumptions C18_needs_prior_allowed_packet.
 
 (* From ANY state reached by ANY history h1: after a packet of f passed, and then only sleeps and traffic of OTHER
    flows (h2: any amount of churn, or none), the next packet of f
-     - passes, even if no rule allows it, when less than the timeout has elapsed;
+     - passes, even if no rule allows it, when at most the timeout has elapsed;
      - is refused, unless a rule allows it, when more than the timeout has elapsed. *)
 Theorem C18_idle_expiry : forall allowed addr_ok rs v0 tcp udp def t0 h1 p d f h2 p' d',
   let n := exec allowed addr_ok h1 (boot rs v0 tcp udp def t0) in
@@ -87,7 +84,7 @@ Theorem C18_idle_expiry : forall allowed addr_ok rs v0 tcp udp def t0 h1 p d f h
   fst (step allowed addr_ok (EPkt p d f) n) = Some true ->
   others_only f h2 = true ->
   addr_ok (f_rules (n_fw n)) p' f = true ->
-  (elapsed h2 < timeout_of (n_fw n) f -> fst (step allowed addr_ok (EPkt p' d' f) n2) = Some true) /\
+  (elapsed h2 <= timeout_of (n_fw n) f -> fst (step allowed addr_ok (EPkt p' d' f) n2) = Some true) /\
   (timeout_of (n_fw n) f < elapsed h2 -> allowed (f_rules (n_fw n)) p' d' f = false ->
    fst (step allowed addr_ok (EPkt p' d' f) n2) = Some false).
 Proof. intros. now apply idle_after_pass. Qed.
@@ -108,36 +105,22 @@ Proof.
 Qed.
 Print Assumptions C18_expired_stays_expired.
 
-(* ---- the exact instant: idle for exactly the timeout ------------------------------------------------------------
-   TCP 12 min, tick 3 min. Flow f is allowed inbound at 0 and refreshed at 3 min (Expires = 15 min). At exactly
-   15 min its reply passes - unless an unrelated flow g is inserted at that same instant: addConn advances the
-   wheel, the next lookup purges f's timer and evict deletes the entry (Expires - now <= 0) before inConns
-   looks it up. Same packets of f, same instants, different verdict. *)
+(* ---- the theorems are not vacuous: the exact instant, with and without churn -----------------------------------------
+   TCP 12 min, tick 3 min. Flow f is allowed inbound at 0 and refreshed at 3 min (Expires = 15 min). Its reply passes
+   at exactly 15 min, also when an unrelated flow g is inserted at that same instant (before the F24 repair the
+   insertion made evict delete f's entry at Expires - now = 0); one nanosecond later it is refused, churn or not. *)
 Definition wit_allowed (rs p : N) (d : bool) (t : tuple) : bool := d.
 Definition wit_addr_ok (rs p : N) (t : tuple) : bool := true.
 Definition wit_f : tuple := (1, 2, 10, 90, 6, false)%N.
 Definition wit_g : tuple := (1, 3, 10, 90, 17, false)%N.
 Definition wit_boot : node := boot 0 0 720000000000 180000000000 600000000000 0.
-Definition wit_quiet_h : list ev :=
-  [EPkt 0 true wit_f; ESleep 180000000000; EPkt 0 false wit_f; ESleep 720000000000; EPkt 0 false wit_f].
-Definition wit_churn_h : list ev :=
-  [EPkt 0 true wit_f; ESleep 180000000000; EPkt 0 false wit_f; ESleep 720000000000; EPkt 1 true wit_g; EPkt 0 false wit_f].
+Definition wit_h (gap : Z) (churn : bool) : list ev :=
+  [EPkt 0 true wit_f; ESleep 180000000000; EPkt 0 false wit_f; ESleep gap]
+  ++ (if churn then [EPkt 1 true wit_g] else []) ++ [EPkt 0 false wit_f].
 
-Theorem C18_boundary_churn_refuted :
-  proj wit_f wit_churn_h = wit_quiet_h /\
-  verdicts wit_allowed wit_addr_ok wit_quiet_h wit_boot = [true; true; true] /\
-  restrict wit_f wit_churn_h (verdicts wit_allowed wit_addr_ok wit_churn_h wit_boot) = [true; true; false].
-Proof. vm_compute. repeat split. Qed.
-Print Assumptions C18_boundary_churn_refuted.
-
-(* The hypotheses are satisfiable and the conclusions not vacuous: one nanosecond earlier or later the history is
-   boundary-free and the churn makes no difference. *)
 Example C18_nonvacuous :
-  let early := [EPkt 0 true wit_f; ESleep 180000000000; EPkt 0 false wit_f; ESleep 719999999999; EPkt 1 true wit_g; EPkt 0 false wit_f] in
-  let late := [EPkt 0 true wit_f; ESleep 180000000000; EPkt 0 false wit_f; ESleep 720000000001; EPkt 1 true wit_g; EPkt 0 false wit_f] in
-  boundary_free wit_allowed wit_addr_ok wit_f (spec_boot 0 0 720000000000 180000000000 600000000000 0) early = true /\
-  boundary_free wit_allowed wit_addr_ok wit_f (spec_boot 0 0 720000000000 180000000000 600000000000 0) late = true /\
-  boundary_free wit_allowed wit_addr_ok wit_f (spec_boot 0 0 720000000000 180000000000 600000000000 0) wit_churn_h = false /\
-  restrict wit_f early (verdicts wit_allowed wit_addr_ok early wit_boot) = [true; true; true] /\
-  restrict wit_f late (verdicts wit_allowed wit_addr_ok late wit_boot) = [true; true; false].
+  restrict wit_f (wit_h 720000000000 false) (verdicts wit_allowed wit_addr_ok (wit_h 720000000000 false) wit_boot) = [true; true; true] /\
+  restrict wit_f (wit_h 720000000000 true) (verdicts wit_allowed wit_addr_ok (wit_h 720000000000 true) wit_boot) = [true; true; true] /\
+  restrict wit_f (wit_h 720000000001 false) (verdicts wit_allowed wit_addr_ok (wit_h 720000000001 false) wit_boot) = [true; true; false] /\
+  restrict wit_f (wit_h 720000000001 true) (verdicts wit_allowed wit_addr_ok (wit_h 720000000001 true) wit_boot) = [true; true; false].
 Proof. vm_compute. repeat split. Qed.
